@@ -8,16 +8,18 @@ sys.path.insert(0, str(Path(__file__).resolve().parent))
 from common import TranslateError, write_if_changed  # noqa: E402
 
 GENERATORS = [
-    ("gen_serde", "GenSerde.v"),
+    ("gen_serde", "generate", "GenSerde.v"),
+    ("gen_styles", "generate_styles", "GenStyles.v"),
+    ("gen_styles", "generate_acronyms", "GenAcronyms.v"),
 ]
 
 
 def run(repo: Path, outdir: Path):
     errors = []
-    for modname, fname in GENERATORS:
+    for modname, fn, fname in GENERATORS:
         try:
             mod = importlib.import_module(modname)
-            text = mod.generate(Path(repo))
+            text = getattr(mod, fn)(Path(repo))
             write_if_changed(Path(outdir) / fname, text + "\n")
         except TranslateError as e:
             errors.append(f"{modname}: {e}")
